@@ -241,16 +241,18 @@ func (rd *HandlingDataManager) initializeStreams() (err error) {
 	if err != nil {
 		return fmt.Errorf("failed to create stream: %w", err)
 	}
-	rd.stream = stream
-	verifhook.Point("hdm.published")
-	rd.stream.WithHub(rd.lunarHub)
+	stream.WithHub(rd.lunarHub)
 	if err = verifhook.Fault("hdm.initialize"); err != nil {
 		return fmt.Errorf("failed to initialize streams: %w", err)
 	}
-	if err = rd.stream.Initialize(); err != nil {
+	if err = stream.Initialize(); err != nil {
 		return fmt.Errorf("failed to initialize streams: %w", err)
 	}
 	verifhook.Point("hdm.initialized")
+	// The new engine replaces the serving one only once it is fully built, so that
+	// traffic is never handled by an empty engine and a failed build leaves the old one active.
+	rd.stream = stream
+	verifhook.Point("hdm.published")
 
 	rd.stream.InitializeHubCommunication()
 	if err = config.WaitForProxyHealthcheck(); err != nil {
